@@ -3,6 +3,7 @@ package main
 
 import (
 	"bytes"
+	"encoding/hex"
 	"reflect"
 	"strings"
 
@@ -116,6 +117,7 @@ func run(r *Rng, tier string, n int) {
 			Emit("is_dup", []string{ta, tb}, out)
 		}
 	}
+	privateRecords(r)
 	var wireRecs []dns.RR
 	for _, t := range types {
 		tname := dns.TypeToString[t]
@@ -391,4 +393,49 @@ func run(r *Rng, tier string, n int) {
 		}
 	}
 	Stat(st)
+}
+
+// a private record type (dns.PrivateHandle): IsDuplicate must be an equivalence on these too
+type privData struct{ b []byte }
+
+func (d *privData) String() string { return hex.EncodeToString(d.b) }
+func (d *privData) Parse(s []string) error {
+	b, err := hex.DecodeString(strings.Join(s, ""))
+	d.b = b
+	return err
+}
+func (d *privData) Pack(buf []byte) (int, error) {
+	if len(buf) < len(d.b) {
+		return 0, dns.ErrBuf
+	}
+	return copy(buf, d.b), nil
+}
+func (d *privData) Unpack(buf []byte) (int, error) {
+	d.b = append([]byte(nil), buf...)
+	return len(buf), nil
+}
+func (d *privData) Copy(dst dns.PrivateRdata) error {
+	dst.(*privData).b = append([]byte(nil), d.b...)
+	return nil
+}
+func (d *privData) Len() int { return len(d.b) }
+
+func privateRecords(r *Rng) {
+	const code = 65301
+	dns.PrivateHandle("VPRIV", code, func() dns.PrivateRdata { return new(privData) })
+	defer dns.PrivateHandleRemove(code)
+	for i := 0; i < 8; i++ {
+		rr := dns.TypeToRR[code]().(*dns.PrivateRR) // made by the registered generator, as the decoder and the zone parser do
+		rr.Hdr = dns.RR_Header{Name: "p.example.", Rrtype: code, Class: 1, Ttl: uint32(r.Intn(1000))}
+		rr.Data.(*privData).b = r.Bytes(r.Intn(12))
+		st["private_records_checked"]++
+		in := map[string]string{"rr": rr.String()}
+		d := isDup(rr, rr)
+		if d != "ok:true" {
+			Viol("C20/PrivateRR/not-reflexive", "IsDuplicate(r, r) = "+d, in)
+		}
+		if d2 := isDup(rr, dns.Copy(rr)); d2 != d {
+			Viol("C20/PrivateRR/copy-differs", "IsDuplicate(r, Copy(r)) = "+d2, in)
+		}
+	}
 }
